@@ -699,7 +699,7 @@ func kindRole(kind string) string {
 		return "go"
 	case kind == "frame" || kind == "call.frame" || kind == "noread" || kind == "modifies":
 		return "frame"
-	case kind == "post" || kind == "panic.post" || strings.HasPrefix(kind, "inv.") || kind == "lemma" || kind == "after" || kind == "dec":
+	case kind == "post" || kind == "post.real" || kind == "after.real" || kind == "panic.post" || strings.HasPrefix(kind, "inv.") || kind == "lemma" || kind == "after" || kind == "dec":
 		return "value"
 	default:
 		return "safety"
